@@ -143,8 +143,8 @@ class C01(core.Property):
       rounds = []
       # ids come from a small population, so clients return in later rounds with different data
       population = [rng.randrange(0, 50) * 100 + k for k in range(8)]
-      if rng.random() < 0.4:
-        population[rng.randrange(8)] = 0          # a falsy but legal client id
+      if rng.random() < 0.4 and 0 not in population:
+        population[rng.randrange(8)] = 0          # a falsy but legal client id (ids stay pairwise distinct)
       for r in range(rng.randrange(1, 4)):
         cohort = []
         pool = rng.sample(population, 6)
